@@ -395,6 +395,10 @@ func (g *gen) boolExpr(d int) string {
 		case 5:
 			g.feat("cmp-int-float")
 			l, r = g.intExpr(d-1), g.floatExpr(d-1)
+			if g.pct(40) {
+				g.feat("edge-int-float-cmp")
+				l, r = edgeInts[g.n(len(edgeInts))], edgeFloats[g.n(len(edgeFloats))]
+			}
 			if g.pct(50) {
 				l, r = r, l
 			}
@@ -1355,6 +1359,134 @@ func (g *gen) forkStmt() string {
 	return strings.TrimSuffix(sb.String(), "\n")
 }
 
+// integers and floats at the edges of int64 and of the 53-bit mantissa: compared exactly (never through a
+// float conversion of the integer).  Only comparison results and strings are printed (the text of such floats
+// is outside the reference's domain).
+var edgeInts = []string{"9223372036854775807", "(-9223372036854775807-1)", "9223372036854775806", "(-9223372036854775807)",
+	"9007199254740992", "9007199254740993", "9007199254740991", "(-9007199254740993)", "(-9007199254740992)",
+	"4611686018427387904", "9223372036854774784", "9223372036854774785", "0", "5", "(-5)", "1"}
+var edgeFloats = []string{"9223372036854775808.0", "(-9223372036854775808.0)", "9223372036854777856.0", "9223372036854774784.0",
+	"(-9223372036854777856.0)", "(-9223372036854774784.0)", "9007199254740992.0", "9007199254740994.0", "9007199254740990.0",
+	"(-9007199254740992.0)", "(-9007199254740994.0)", "4611686018427387904.0", "18446744073709551616.0", "0.5", "(-0.5)", "5.0", "0.0",
+	"9223372036854775807.0", "(-9223372036854775807.0)"}
+var cmpOps = []string{"==", "!=", "<", ">", "<=", ">="}
+
+func (g *gen) edgeCmpStmt() string {
+	g.feat("edge-int-float-cmp")
+	var sb strings.Builder
+	w := func(f string, a ...any) { sb.WriteString(fmt.Sprintf(f, a...) + "\n") }
+	ei := func() string { return edgeInts[g.n(len(edgeInts))] }
+	ef := func() string { return edgeFloats[g.n(len(edgeFloats))] }
+	iv, fv := g.fresh("ei"), g.fresh("ef")
+	w("%s = %s", iv, ei())
+	w("%s = %s", fv, ef())
+	switch g.n(5) {
+	case 0: // all six operators, both orders, through variables
+		var parts []string
+		for _, op := range cmpOps {
+			parts = append(parts, iv+" "+op+" "+fv, fv+" "+op+" "+iv)
+		}
+		w("println(%s)", strings.Join(parts, ", "))
+	case 1: // literals, mixed with small values
+		var parts []string
+		for i := 0; i < 6; i++ {
+			op := cmpOps[g.n(6)]
+			if g.pct(50) {
+				parts = append(parts, ei()+" "+op+" "+ef())
+			} else {
+				parts = append(parts, ef()+" "+op+" "+ei())
+			}
+		}
+		w("println(%s)", strings.Join(parts, ", "))
+	case 2: // inside arrays (and nested)
+		g.feat("edge-cmp-in-array")
+		var parts []string
+		for i := 0; i < 4; i++ {
+			op := cmpOps[g.n(6)]
+			switch g.n(3) {
+			case 0:
+				parts = append(parts, "["+iv+"] "+op+" ["+fv+"]")
+			case 1:
+				parts = append(parts, "[1, "+ei()+"] "+op+" [1, "+ef()+"]")
+			default:
+				parts = append(parts, "[["+ef()+"], 2] "+op+" [["+ei()+"], 2]")
+			}
+		}
+		w("println(%s)", strings.Join(parts, ", "))
+	case 3: // as map keys: order of iteration, first, lookup by the other spelling
+		g.feat("edge-map-keys")
+		m, kv := g.fresh("em"), g.fresh("kv")
+		n := 2 + g.n(6) // both sides of the 4-pair threshold
+		var parts []string
+		for i := 0; i < n; i++ {
+			k := ei()
+			if g.pct(50) {
+				k = ef()
+			}
+			parts = append(parts, fmt.Sprintf("%s: \"k%d\"", k, i))
+		}
+		parts = append(parts, fv+": \"fv\"", "1: \"one\"", iv+": \"iv\"")
+		w("%s = {%s}", m, strings.Join(parts, ", "))
+		w("println(first(%s).value, len(%s), %s[%s], %s[%s], %s[%s])", m, m, m, iv, m, fv, m, ei())
+		w("for %s = %s {print(%s.value, \"\")}", kv, m, kv)
+		w("%s[%s] = \"new\"", m, ef())
+		w("del(%s[%s])", m, ei())
+		w("for %s = %s {print(%s.value, \"\")}", kv, m, kv)
+		w("println(len(%s))", m)
+	default: // in conditions and loops
+		op := cmpOps[g.n(6)]
+		w("if %s %s %s {println(\"yes\")} else {println(\"no\")}", iv, op, fv)
+		w("println(%s %s %s && %s %s %s, %s %s %s || %s %s %s)", ei(), cmpOps[g.n(6)], ef(), ef(), cmpOps[g.n(6)], ei(), ef(), cmpOps[g.n(6)], ei(), ei(), cmpOps[g.n(6)], ef())
+	}
+	return strings.TrimSuffix(sb.String(), "\n")
+}
+
+// variadic calls whose last argument is an array / nested array, repeated with different nesting (the last array
+// argument is spread exactly one level, on every call)
+func (g *gen) variadicNestStmt() string {
+	g.feat("variadic-nesting")
+	var sb strings.Builder
+	w := func(f string, a ...any) { sb.WriteString(fmt.Sprintf(f, a...) + "\n") }
+	f := g.fresh("vf")
+	fixed := g.n(3)
+	ps := []string{"", "a, ", "a, b, "}[fixed]
+	body := g.pick("..", "[len(..), ..]", "[.., first(..)]", "{\"n\": len(..), \"rest\": ..}")
+	if g.pct(60) {
+		w("func %s(%s..) {%s}", f, ps, body)
+	} else {
+		w("%s = func(%s..) {%s}", f, ps, body)
+	}
+	pre := []string{"", "1, ", "1, 2, "}[fixed]
+	lasts := []string{"[5]", "[[5]]", "[[[5]]]", "5", "[5, 6]", "[[5, 6]]", "[[5], [6]]", "[]", "[[]]", "\"s\"", "[\"s\"]", "[1,2,3,4,5,6,7,8,9]", "[[1,2,3,4,5,6,7,8,9]]", "nil", "[nil]"}
+	k := 3 + g.n(4)
+	var calls []string
+	for i := 0; i < k; i++ {
+		calls = append(calls, fmt.Sprintf("%s(%s%s)", f, pre, lasts[g.n(len(lasts))]))
+	}
+	// the same call again later must give the same answer as the first time
+	calls = append(calls, calls[0], calls[1])
+	w("println(%s)", strings.Join(calls, ", "))
+	if g.pct(50) {
+		av := g.fresh("va")
+		w("%s = %s", av, lasts[g.n(len(lasts))])
+		w("println(%s(%s%s), func() {%s(%s%s)}(), %s)", f, pre, av, f, pre, av, av)
+	}
+	return strings.TrimSuffix(sb.String(), "\n")
+}
+
+func (g *gen) edgeProgram() string {
+	var parts []string
+	n := 1 + g.n(3)
+	for i := 0; i < n; i++ {
+		if g.pct(75) {
+			parts = append(parts, g.edgeCmpStmt())
+		} else {
+			parts = append(parts, g.variadicNestStmt())
+		}
+	}
+	return strings.ReplaceAll(strings.Join(parts, "\n"), "\n", ";\n")
+}
+
 // "object factories": a function that reads and writes no outer variable returns a container (map / array,
 // nested, below and above the size thresholds) of closures sharing captured state.  It is instantiated two or
 // three times, with EQUAL and with different arguments; the state is changed through one instance and observed
@@ -1559,6 +1691,12 @@ func (g *gen) stmt(nest int, ret ty) string {
 	case k < 92:
 		if g.pct(50) {
 			return g.idiomStmt()
+		}
+		if g.pct(40) && !g.inFunc() && g.inLoop == 0 {
+			if g.pct(50) {
+				return g.edgeCmpStmt()
+			}
+			return g.variadicNestStmt()
 		}
 		return g.errorStmt()
 	case k < 95:
